@@ -21,7 +21,7 @@ theorem classAttrs_spec {t : ClassFacts} {p p' : Pool} {bs : List Bytes} (hg : G
     (h : runAttrs (classAttrs t []) p = .ok (bs, p')) :
     Step p p' ∧ Blocks bs p' FreshC (fun c => withAttrsOf c t) := by
   unfold classAttrs at h
-  rw [hok.rva, hok.ria, hok.rvta, hok.rita, hok.module, hok.record] at h
+  rw [hok.module, hok.record] at h
   simp only [List.cons_append, List.nil_append, List.append_assoc] at h
   obtain ⟨o1, q1, r1, e1, k1, rfl⟩ := runAttrs_cons_inv h
   obtain ⟨o2, q2, r2, e2, k2, rfl⟩ := runAttrs_cons_inv k1
@@ -31,11 +31,9 @@ theorem classAttrs_spec {t : ClassFacts} {p p' : Pool} {bs : List Bytes} (hg : G
   obtain ⟨o6, q6, r6, e6, k6, rfl⟩ := runAttrs_cons_inv k5
   obtain ⟨o7, q7, r7, e7, k7, rfl⟩ := runAttrs_cons_inv k6
   obtain ⟨r8, q8, r9, e8, k8, rfl⟩ := runAttrs_append_inv k7
-  rw [annoBlocks_nil] at e8
-  have := ok_inj.mp e8
-  cases this
+  obtain ⟨oa1, qa1, oa2, qa2, oa3, qa3, oa4, ea1, ea2, ea3, ea4, rfl⟩ := annoBlocks_inv e8
   obtain ⟨o9, q9, r10, e9, k9, rfl⟩ := runAttrs_cons_inv k8
-  have := ok_inj.mp (show (Except.ok (none, q7) : Except Fail (Option Bytes × Pool)) = .ok (o9, q9) from e9)
+  have := ok_inj.mp (show (Except.ok (none, q8) : Except Fail (Option Bytes × Pool)) = .ok (o9, q9) from e9)
   cases this
   obtain ⟨o10, q10, r11, e10, k10, rfl⟩ := runAttrs_cons_inv k9
   obtain ⟨o11, q11, r12, e11, k11, rfl⟩ := runAttrs_cons_inv k10
@@ -61,7 +59,11 @@ theorem classAttrs_spec {t : ClassFacts} {p p' : Pool} {bs : List Bytes} (hg : G
   obtain ⟨t5, c5⟩ := sigAttr_spec t4.good e5
   obtain ⟨t6, c6⟩ := utf8Attr_spec t5.good e6
   obtain ⟨t7, c7⟩ := sdeAttr_spec t6.good e7
-  obtain ⟨t10, c10⟩ := packagesAttr_spec t7.good e10
+  obtain ⟨ta1, ca1⟩ := annosAttr_spec t7.good hok.rva ea1
+  obtain ⟨ta2, ca2⟩ := annosAttr_spec ta1.good hok.ria ea2
+  obtain ⟨ta3, ca3⟩ := typeAnnosAttr_spec writeTargetClass_eq ta2.good hok.rvta ea3
+  obtain ⟨ta4, ca4⟩ := typeAnnosAttr_spec writeTargetClass_eq ta3.good hok.rita ea4
+  obtain ⟨t10, c10⟩ := packagesAttr_spec ta4.good e10
   obtain ⟨t11, c11⟩ := classAttr_spec t10.good e11
   obtain ⟨t12, c12⟩ := classAttr_spec t11.good e12
   obtain ⟨t13, c13⟩ := classListAttr_spec t12.good e13
@@ -72,7 +74,11 @@ theorem classAttrs_spec {t : ClassFacts} {p p' : Pool} {bs : List Bytes} (hg : G
   have s12 := t13.trans s13
   have s11 := t12.trans s12
   have s10 := t11.trans s11
-  have s7 := t10.trans s10
+  have sa4 := t10.trans s10
+  have sa3 := ta4.trans sa4
+  have sa2 := ta3.trans sa3
+  have sa1 := ta2.trans sa2
+  have s7 := ta1.trans sa1
   have s6 := t7.trans s7
   have s5 := t6.trans s6
   have s4 := t5.trans s5
@@ -87,6 +93,10 @@ theorem classAttrs_spec {t : ClassFacts} {p p' : Pool} {bs : List Bytes} (hg : G
     (Blocks.cons (block_signature c5) s5.le
     (Blocks.cons (block_sourceFile c6) s6.le
     (Blocks.cons (block_sde hok.sde c7) s7.le
+    (Blocks.cons (block_annos true ca1) sa1.le
+    (Blocks.cons (block_annos false ca2) sa2.le
+    (Blocks.cons (block_typeAnnos true ca3) sa3.le
+    (Blocks.cons (block_typeAnnos false ca4) sa4.le
     (Blocks.cons (block_packages c10) s10.le
     (Blocks.cons (block_mainClass hok.mainClass c11) s11.le
     (Blocks.cons (block_nestHost hok.nestHost c12) s12.le
@@ -100,6 +110,14 @@ theorem classAttrs_spec {t : ClassFacts} {p p' : Pool} {bs : List Bytes} (hg : G
       (fun c h => ⟨h.1, h.2⟩))
       (pre := fun c => c.modulePackages = none ∧ c.moduleMainClass = none ∧ c.nestHost = none ∧ c.nestMembers = none ∧
         c.permittedSubclasses = none ∧ True) (fun c h => ⟨h.1, h.2⟩))
+      (pre := fun c => c.modulePackages = none ∧ c.moduleMainClass = none ∧ c.nestHost = none ∧ c.nestMembers = none ∧
+        c.permittedSubclasses = none ∧ True) (fun c h => ⟨trivial, by cases hv : c <;> simp_all⟩))
+      (pre := fun c => c.modulePackages = none ∧ c.moduleMainClass = none ∧ c.nestHost = none ∧ c.nestMembers = none ∧
+        c.permittedSubclasses = none ∧ True) (fun c h => ⟨trivial, by cases hv : c <;> simp_all⟩))
+      (pre := fun c => c.modulePackages = none ∧ c.moduleMainClass = none ∧ c.nestHost = none ∧ c.nestMembers = none ∧
+        c.permittedSubclasses = none ∧ True) (fun c h => ⟨trivial, by cases hv : c <;> simp_all⟩))
+      (pre := fun c => c.modulePackages = none ∧ c.moduleMainClass = none ∧ c.nestHost = none ∧ c.nestMembers = none ∧
+        c.permittedSubclasses = none ∧ True) (fun c h => ⟨trivial, by cases hv : c <;> simp_all⟩))
       (pre := fun c => c.sourceDebugExtension = none ∧ c.modulePackages = none ∧ c.moduleMainClass = none ∧ c.nestHost = none ∧
         c.nestMembers = none ∧ c.permittedSubclasses = none ∧ True) (fun c h => ⟨h.1, h.2⟩))
       (pre := fun c => c.sourceFile = none ∧ c.sourceDebugExtension = none ∧ c.modulePackages = none ∧ c.moduleMainClass = none ∧
@@ -208,10 +226,6 @@ theorem writeClass_layout (t : ClassFacts) (hfrag : InWriterFragment t) (bytes :
   have hacc := haf (c.base, none, false) hbase
   have hfacts : c.facts = some t := by
     simp only [ClassLayout.facts, hacc, c, hff, hmf]
-    have g1 := hok.rva
-    have g2 := hok.ria
-    have g3 := hok.rvta
-    have g4 := hok.rita
     have g5 := hok.module
     have g6 := hok.record
     have g7 := hok.mask
